@@ -77,6 +77,7 @@ func checkC07(c *Check) {
 	if r == nil {
 		return
 	}
+	wholeSemantics(c, r, "R-whole-semantics", modelOpts{Ast: false})
 	optSets := []modelOpts{{Ast: true}, {Ast: false}, {Ast: true, Inline: true}, {Ast: false, Inline: true}}
 	specs := tokenSuite()
 	if c.Tier == "thorough" {
